@@ -45,7 +45,7 @@ func gtreeGoroutines() (int, string) {
 func settleLeaks(before int) (int, string) {
 	var n int
 	var s string
-	for i := 0; i < 60; i++ {
+	for i := 0; i < 400; i++ { // up to 2 s; returns as soon as nothing is left
 		n, s = gtreeGoroutines()
 		if n <= before {
 			return n, ""
@@ -287,7 +287,7 @@ func runMscn(t []string) string {
 	timedOut := false
 	select {
 	case <-done:
-	case <-time.After(5 * time.Second):
+	case <-time.After(20 * time.Second):
 		timedOut = true
 	}
 	elapsed := time.Since(start)
